@@ -215,6 +215,11 @@ def upper(repo, fi, e, env):
     return math.inf
 
 
+def canon_guard_text(repo, fi, test):
+    from ..rules import canon_guard
+    return canon_guard(test, repo, fi.module, fi.cls)
+
+
 def rule_caps(ctx, repo, ci):
     r = ctx.rule('C20.K1', 'filter size and hash-function count are capped at 36000 bytes / 50 functions by construction', engine='RULES', floor=4)
     B = spec.BLOOM
@@ -239,6 +244,44 @@ def rule_caps(ctx, repo, ci):
         ub = upper(repo, init, common.resolved(init, n.value, repo), env)
         r.check(ub <= cap, 'cap:%s' % slot, common.site_of(init, n), 'upper bound %s <= %s' % (ub, cap),
                 'the value stored in %s can reach %s (cap %s): `%s`' % (slot, ub, cap, norm(n.value)[:90]))
+    # the BIP37 sizing formulas themselves (unit conversions: bits by 8 to bytes; the cap is given in bytes and compared in bits)
+    from ..rules import canon_arith as _ca20
+    REF = {'vData': 'bytearray(int(min(-1 / LN2SQUARED * nElements * math.log(nFPRate), self.MAX_BLOOM_FILTER_SIZE * 8) / 8))',
+           'nHashFuncs': 'int(min(len(self.vData) * 8 / nElements * LN2, self.MAX_HASH_FUNCS))'}
+    for slot, ref in REF.items():
+        n = stores.get(slot)
+        if n is None:
+            continue
+        got = common.resolved(init, n.value, repo)
+        gt = norm(got)
+        gt = re.sub(r'0\.48045301391820\d*', 'LN2SQUARED', gt)
+        gt = re.sub(r'0\.69314718055994\d*', 'LN2', gt)
+        gt = re.sub(r'\b_+(LN2SQUARED|LN2)\b', r'\1', gt)
+        try:
+            got = ast.parse(gt, mode='eval').body
+            same = norm(got) == norm(ast.parse(ref, mode='eval').body) or _ca20(got) == _ca20(ref)
+        except Exception:
+            same = None
+        if same:
+            r.ok('sizing:%s' % slot, common.site_of(init, n), 'the BIP37 formula')
+        else:
+            # same shape, another unit constant: recognisably the formula with a changed 8
+            a_, b_ = re.sub(r'\b\d+\b', '#', norm(got)), re.sub(r'\b\d+\b', '#', norm(ast.parse(ref, mode='eval').body))
+            ops_ = lambda t: re.sub(r'//', '/', t)
+            if ops_(a_) == ops_(b_):
+                r.violated('sizing:%s' % slot, common.site_of(init, n), 'the size of %s is computed as `%s`; BIP37: `%s` (bits to bytes by 8, the byte cap compared in bits by 8)' % (slot, norm(got)[:110], ref), sure=True)
+            else:
+                r.undecided('sizing:%s' % slot, common.site_of(init, n), 'sizing formula `%s` not recognised' % norm(got)[:100])
+    rot = repo.get_function('bitcoin.bloom._ROTL32')
+    if rot is not None:
+        from ..rules import equiv as _eq20
+        for n in walk_no_nested(rot.node):
+            if isinstance(n, ast.Assert):
+                v_ = _eq20(canon_guard_text(repo, rot, n.test), '%s <= 4294967295' % rot.params[0])
+                if v_ is True:
+                    r.ok('rotl32:domain', common.site_of(rot, n), 'every 32-bit word')
+                elif v_ is False:
+                    r.violated('rotl32:domain', common.site_of(rot, n), '_ROTL32 asserts `%s`: a legal 32-bit word (0xFFFFFFFF) aborts MurmurHash3, and with it insert/contains for the elements that produce it' % norm(n.test), sure=True)
     w = repo.lookup_method(ci, 'IsWithinSizeConstraints')
     if w is not None:
         from ..rules import equiv_folded as _ef
